@@ -155,16 +155,35 @@ def run_class_case(ci, pool):
         r = roundtrip_ok(oc, cls, order)
         if r is not True:
             return (ver, name, "custom") + r
+    # constructed (not parsed) from datetime values: naive, UTC-aware or in another zone, with digits below the millisecond
+    kwargs = dict(doc)
+    tz = (None, pytz.utc, dt.timezone(dt.timedelta(hours=-3, minutes=-30)))[pool % 3]
+    nts = 0
+    for pname, desc in _MODEL[ver][cat][name]["props"].items():
+        if desc["kind"] == "TimestampProperty" and isinstance(kwargs.get(pname), str):
+            inst = stix2.utils.parse_into_datetime(kwargs[pname])
+            d = dt.datetime(inst.year, inst.month, inst.day, inst.hour, inst.minute, inst.second, 123456 if pool % 2 else inst.microsecond)
+            kwargs[pname] = d if tz is None else pytz.utc.localize(d).astimezone(tz)
+            nts += 1
+    if nts:
+        kwargs.pop("type", None)
+        od = cls(**kwargs)
+        r = roundtrip_ok(od, cls, order)
+        if r is not True:
+            return (ver, name, "from datetime") + r
     return True
 
 
 # ---- special shapes: bundles, observed-data containers, markings, toplevel-property extensions, datetime inputs in other zones
+NSPECIAL = 14
+
+
 def special_shapes(si: int) -> bool:
     """
-    pre: 0 <= si < 10
+    pre: 0 <= si < NSPECIAL
     post: _
     """
-    si = pick(si, 10)
+    si = pick(si, NSPECIAL)
     with Native():
         ok = run_special_case(si) is True
     V.reached()
@@ -230,6 +249,50 @@ def run_special_case(si):
               "contents": {"de": {"name": "é"}, "fr": {"description": ""}}}
         o = stix2.parse(lc)
         return roundtrip_ok(o, stix2.v21.LanguageContent, _MODEL["2.1"]["objects"]["language-content"]["order"])
+    if si in (10, 11):
+        # bundles whose members are of the other spec version (each member is dispatched on its own content), strict and permissive first parse
+        md20 = {"type": "marking-definition", "id": "marking-definition--" + UU, "created": "2020-01-01T00:00:00Z", "definition_type": "statement",
+                "definition": {"statement": "s"}}
+        rel20 = {"type": "relationship", "id": "relationship--" + UU, "created": "2020-01-01T00:00:00.120Z", "modified": "2020-01-01T00:00:00.120Z",
+                 "relationship_type": "uses", "source_ref": "tool--" + UU, "target_ref": "identity--" + UU}
+        if si == 10:
+            b = {"type": "bundle", "id": "bundle--" + UU, "objects": [tool20, ident, md20, rel20]}
+            bcls = stix2.v21.Bundle
+        else:
+            # (2.0 bundles refuse members of another version -- a documented limitation; here: members with custom content, permissive only)
+            b = {"type": "bundle", "id": "bundle--" + UU, "objects": [dict(tool20, x_foo=1), dict(ident, x_bar=""), dict(rel20, x_baz=[1])]}
+            bcls = stix2.v21.Bundle
+        for allow in ((False, True) if si == 10 else (True,)):
+            o = stix2.parse(b, allow_custom=allow)
+            want = [stix2.parse(m, allow_custom=allow).__class__ for m in b["objects"]]
+            if [m.__class__ for m in o.objects] != want:
+                return ("member classes", allow)
+            r = roundtrip_ok(o, bcls, None)
+            if r is not True:
+                return (allow,) + r
+            back = stix2.parse(o.serialize(), allow_custom=True)
+            if [m.__class__ for m in back.objects] != want:
+                return ("member classes after round trip", allow)
+        return True
+    if si in (12, 13):
+        # values taken from one object and given to a constructor of the other spec version (timestamps with digits below the millisecond,
+        # embedded objects, lists): the new object must round trip like any other
+        src_cls, dst_cls = (stix2.v21.Identity, stix2.v20.Identity) if si == 12 else (stix2.v20.Identity, stix2.v21.Identity)
+        for ts in ("2020-01-01T00:00:00.123456Z", "2020-01-01T00:00:00.120Z", "2020-01-01T00:00:00Z", "2020-01-01T00:00:00.000001Z"):
+            src = src_cls(id="identity--" + UU, name="n", identity_class="individual", created=ts, modified=ts, labels=["a"],
+                          external_references=[{"source_name": "s", "external_id": "1"}])
+            dst = dst_cls(id=src.id, name=src.name, identity_class=src.identity_class, created=src.created, modified=src.modified, labels=src.labels,
+                          external_references=src.external_references)
+            r = roundtrip_ok(dst, dst_cls, None)
+            if r is not True:
+                return (ts,) + r
+            ind_cls = stix2.v20.Indicator if si == 12 else stix2.v21.Indicator
+            extra = {"labels": ["malicious-activity"]} if si == 12 else {"pattern_type": "stix"}
+            ind = ind_cls(pattern="[a:b = 1]", valid_from=src.created, created=src.modified, modified=src.modified, **extra)
+            r = roundtrip_ok(ind, ind_cls, None)
+            if r is not True:
+                return (ts, "indicator") + r
+        return True
     sco = {"type": "network-traffic", "id": "network-traffic--" + UU, "protocols": ["tcp"], "src_ref": "ipv4-addr--" + UU, "src_port": 0, "is_active": False,
            "start": "2020-01-01T00:00:00.000001Z", "extensions": {"http-request-ext": {"request_method": "get", "request_value": "/", "request_header": {"A-b": ["é"]}},
                                                                    "tcp-ext": {"src_flags_hex": "00"}}}
